@@ -301,6 +301,14 @@ func (p *peer) act(c net.Conn, pc *peerCipher, b behaviour) bool {
 		if _, err := c.Write(ct); err != nil {
 			return false
 		}
+	case "okThenReset":
+		// answer, then drop the connection abortively (RST instead of FIN)
+		c.Write(enc(frameBytes(b.items, true, now.Unix(), int32(now.Nanosecond()))))
+		if tc, ok := c.(*net.TCPConn); ok {
+			time.Sleep(20 * time.Millisecond) // let the reply be read first
+			tc.SetLinger(0)
+		}
+		return false
 	case "closeBefore":
 		return false
 	case "closeInside":
